@@ -270,6 +270,9 @@ func runC01(rc *RunCtx) {
 		switch {
 		case inAll:
 			rc.Probe("must_authenticate")
+			if auth == nil && freshRefusalExcused(rc, c.key, c.c.Wrote) {
+				break
+			}
 			if auth == nil {
 				st := "?"
 				if closed != nil {
@@ -279,8 +282,9 @@ func runC01(rc *RunCtx) {
 					c.k, c.ip, c.key, len(cur), len(cur[0].keys), st)
 			} else if !okIDs[auth.Key] {
 				rc.Failf("wrong-attribution", "conn %d: stream under %s was attributed to id %q, which is not configured with that cipher and secret (acceptable: %v)", c.k, c.key, auth.Key, simrt.SortedKeys(okIDs))
-			} else if string(c.echoed) != fmt.Sprintf("hello-from-%d", c.k) {
-				rc.Failf("authenticated-but-not-relayed", "conn %d: authenticated as %q but the echo through the target came back as %q", c.k, auth.Key, c.echoed)
+			} else if !dialed {
+				// (what the relay then carries is C02's claim)
+				rc.Failf("authenticated-but-not-served", "conn %d: reported as authenticated (%q) but its target was never contacted", c.k, auth.Key)
 			}
 		case inNone:
 			rc.Probe("must_reject")
